@@ -665,6 +665,17 @@ def step (st : State) (line : String) : State × String :=
   | 10, ["ident"] =>
     if st.sysIdx.isSome || st.nlines > 0 || st.runnerMode then (st, "bad-op")
     else ({ st with done := true }, identC10 st.narb st.host)
+  | 10, ["sysarbgone", a, v] =>
+    if !(a == "aligned" || a == "plain") || !(v == "early" || v == "alive") then (st, "bad-op")
+    else
+      -- the model: one worker (whatever its number); `early`: it stops, winds down, deregisters; the Exit is
+      -- handled: the system arbiter — registered under its own key — gets a Stop, its loop ends, it is gone
+      let s := run ActixNet.Rt.init ([.newArb 0] ++ rep 2 .ctrl)
+      let s := if v == "early" then run s ([.send 0 .stop, .runner 0, .close 0, .fin 0, .ctrl]) else s
+      let s := run s ([.sysSend 0] ++ rep 3 .ctrl ++ [.runner sysArbId, .close sysArbId] ++
+        rep 2 (.runner 0) ++ [.close 0, .fin 0])
+      let (_, r) := doSend s sysArbId (.exec 1)
+      (st, s!"sysarbgone={if !r && (s.arbs sysArbId).gone then 1 else 0} worker={if joinReturns s 0 then "joined" else "running"}")
   | 10, ["syslive", r] =>
     match nat? r with
     | some r =>
